@@ -3,8 +3,6 @@
 -/
 import Driver.Proto
 import Dirk.Spec.Slashing
-import Dirk.Props.C05
-import Dirk.Props.C06
 import Dirk.Spec.Perms
 import Dirk.Spec.Import
 import Dirk.Model.Scatter
@@ -480,6 +478,8 @@ def dstepCore (st : DState) (line : String) : DState × Option String :=
       | ["tlsnocert"] => some .tlsNoCert
       | ["selfsigned", cn] => some (.cert false true cn)
       | ["otherca", cn] => some (.cert false true cn)
+      -- issued by an authority in the host's trust store, which is not the configured one
+      | ["hosttrusted", cn] => some (.cert false true cn)
       | ["expired", cn] => some (.cert true false cn)
       | ["notyetvalid", cn] => some (.cert true false cn)
       | ["valid", cn] => some (.cert true true cn)
